@@ -35,6 +35,14 @@ Theorem C05_forward_equals_reverse : forall R (ops : numops R), is_field ops ->
   end.
 Proof. exact @forward_equals_reverse. Qed.
 
+(* every trace (op) number form, and number ^ trace, equals the trace (op) trace form applied to
+   Trace::constant(number): plain-number operands are constants *)
+Theorem C05_number_operand_is_constant_trace : forall R (ops : numops R), is_field ops ->
+  forall o (a : trace R) c,
+  t_bin_num ops o a c = t_bin ops o a (tconstant ops c) /\
+  t_num_pow ops c a = t_pow ops (tconstant ops c) a.
+Proof. exact @number_operand_is_constant_trace. Qed.
+
 (* over Coq's real numbers the derivative component is the true derivative of the number
    component with respect to the seeded input, inside the domain (`dom`, see C04) *)
 Theorem C05_forward_mode_is_true_derivative : forall prog i x0 out,
@@ -64,4 +72,5 @@ Qed.
 Print Assumptions C05_value.
 Print Assumptions C05_derivative_is_gradient.
 Print Assumptions C05_forward_equals_reverse.
+Print Assumptions C05_number_operand_is_constant_trace.
 Print Assumptions C05_forward_mode_is_true_derivative.
